@@ -348,7 +348,7 @@ fn main() {
             let cur_prim_nonempty = matches!(cur.map(|e| e.value()), Some(Value::Primitive(p)) if p.multiplicity() > 0);
             let cur_bytes = matches!(cur.map(|e| e.value()), Some(Value::Primitive(PrimitiveValue::U8(v))) if !v.is_empty());
             // the class values must have: that of the element's VR when it exists, else of the dictionary VR
-            let c = if cur.is_some() && !cur_is_seq { cur_class.unwrap_or(c) } else { c };
+            let c = if cur.is_some() { cur_class.unwrap_or(c) } else { c };
             let (action, ad) = loop {
                 match r.below(20) {
                     0 => break (AttributeAction::Remove, "remove".to_string()),
